@@ -203,6 +203,17 @@ _extra8 = {
     "C17": " Round 8: every judged rejection is repeated on the same value; offending elements 3-120 levels down a recursive value.",
     "C18": " Round 8: handlers that call functions themselves (recursion, mutual recursion, nested calls).",
 }
+_extra9 = {
+    "C03": " Rounds 9-10: digit-only property IDs asked with the same digits as numeric keys; container defaults with every accepted result overwritten in place before the same input is asked again.",
+    "C09": " Round 9: generated schemas also use custom unit definitions that carry the names of built-in ones with other factors.",
+    "C10": " Round 9: 108 directed documents in which a nested object repeats an outer ID above a broken part.",
+    "C11": " Round 10: 53 sequences of refused calls (rejected wire / native input, rejected signal data, unknown IDs, undeclared output) between a run's signals and its valid step call: one step-data instance per run ID.",
+    "C12": " Round 9: unit strings and their near-variants (white space, dropped / doubled characters, case) asked after the original on one definition and cold on a twin.",
+    "C14": " Round 9: rings of 2-3 scopes referring to each other across namespaces, linked in every order, same outcomes whatever the order.",
+    "C16": " Round 9: sibling definitions with the same names and other multipliers used in the same process.",
+}
+for _id, _txt in _extra9.items():
+    _extra[_id] = _extra.get(_id, "") + _txt
 for _id, _txt in _extra8.items():
     _extra[_id] = _extra.get(_id, "") + _txt
 for _id, _txt in _extra7.items():
